@@ -185,6 +185,23 @@ def run(chk):
         chk.prove_paths(f"python_value_to_hugr(int,{kind}):payload==v/\\log_width==6", paths, post_h,
                         func="guppylang_internals.compiler.expr_compiler:python_value_to_hugr")
 
+    # ---- literals survive CFG construction: the real CFGBuilder/ExprBuilder/BranchBuilder executed on
+    # programs that put literals (negated ones are folded in place by ExprBuilder.visit_UnaryOp) in
+    # every syntactic position; the constant that reaches the basic blocks must be the source literal
+    # (shared machinery of C03: the CFG is executed against CPython for every decision sequence)
+    from . import C03 as C3
+    LITS = [1, 3, 2 ** 31, 2 ** 63 - 1, 2 ** 63, 2 ** 64 - 1, 7919]
+    progs = []
+    for k in LITS:
+        body = [f"e(-{k})", f"e({k})", f"x = -{k}", "e(x)", f"e(-(-{k}))", f"e(-{k} < x)", f"e(x < -{k})", f"e(y <= -{k} <= x)", f"e(-{k} <= x <= {k})",
+                f"e(y > x >= -{k})", f"e((-{k} if c0() else {k}) + 1)", f"e(c0() and -{k} < y)", f"e(-{k} <= -{k} <= -{k})",
+                f"if x == -{k}:", f"    e(g(-{k}))", f"while y < -{k} < y:", "    e(0)", f"x += -{k}", "e(x)", f"e((-{k}, {k})[0])"]
+        progs.append("def f():\n" + "\n".join("    " + l for l in C3.S.PROLOGUE + body + C3.S.EPILOGUE) + "\n")
+    e2 = C3.cfg_engine(chk)
+    n = C3.cfg_obligations(chk, e2, list(enumerate(progs)), 2, what="every-literal-reaches-the-blocks-with-its-source-value(negation-folded-exactly-once)")
+    chk.record("literal-family:programs-explored", n == len(LITS), str(n), kind="reachability")
+    chk.use_engine(e2)
+
     chk.must_fail("twin:int-range-is-not-everything", [], in_int)
     chk.expected_min_obligations = 25
     chk.not_covered += ["that the emulator prints the constant (needs HUGR/selene semantics): payload equality is what is proved",
